@@ -17,7 +17,7 @@ LEVEL = 'exploration'
 RULE = ('a pattern from a regex grammar (literals, classes, ., alternation, groups, * + ? {m,n}, escapes) and a '
         'scripted stream; the same script is run under each accepted form (native string; native compiled with '
         'DOTALL(+IGNORECASE); ASCII str given to a bytes-mode object; compiled pattern of the other string type; '
-        'single vs one-element list; compile_pattern_list+expect_list; expect_exact(literal) vs '
+        'single vs one-element list; compile_pattern_list+expect_list; lists of 2-3 patterns in which every entry is given in a form of its own (string, ASCII str, compiled, compiled other type, own flags) against the same list fully compiled; expect_exact(literal) vs '
         'expect(re.escape(literal))) and (index|exception, before, after, pending, reads) must agree; for '
         'pre-compiled patterns every subset of {IGNORECASE, MULTILINE, VERBOSE, DOTALL, ASCII} is compared with '
         'the natively typed pattern compiled with the same flags; invalid objects must raise TypeError with the '
@@ -26,7 +26,7 @@ RULE = ('a pattern from a regex grammar (literals, classes, ., alternation, grou
         'stream, splitting, mode)')
 ASSUMPTIONS = ['scripted transport (H1); the re module defines what a flag means',
                'grammar avoids \\w-style classes whose meaning legitimately differs between str and bytes patterns']
-REQUIRED = ['history_calls_compared', 'form_pairs_compared', 'flag_subsets_compared', 'invalid_objects_rejected', 'dot_newline_cases',
+REQUIRED = ['history_calls_compared', 'form_pairs_compared', 'flag_subsets_compared', 'mixed_form_lists', 'invalid_objects_rejected', 'dot_newline_cases',
             'ignorecase_cases', 'cross_type_compiled_cases']
 
 FLAGS = [re.IGNORECASE, re.MULTILINE, re.VERBOSE, re.DOTALL, re.ASCII]
@@ -202,6 +202,25 @@ def run_shard(spec, acc):
                 'lit': ''.join(rng.choice(TEXT + ['*', '(', '\\', '+']) for _ in range(rng.randint(1, 3))),
                 'prefill': ''.join(rng.choice(TEXT) for _ in range(rng.randint(0, 3))) if rng.random() < 0.3 else '',
                 'bad': rng.randrange(len(BAD))}
+        if rng.random() < 0.5:
+            ents = []
+            for _ in range(rng.randint(2, 3)):
+                s_i = gen_regex(rng)
+                f_i = None
+                if rng.random() < 0.45:
+                    f_i = 0
+                    for f in FLAGS:
+                        if rng.random() < 0.3:
+                            f_i |= int(f)
+                try:
+                    re.compile(s_i, f_i or 0)
+                    re.compile(s_i.encode('ascii'), (f_i or 0) & ~int(re.UNICODE))
+                except (re.error, ValueError):
+                    continue
+                ents.append({'src': s_i, 'flags': f_i, 'form': rng.choice(['str', 'str', 'ascii', 'compiled', 'other'])})
+            if len(ents) >= 2:
+                case['list'] = ents
+                case['list_markers'] = [[rng.randint(0, 3), rng.choice(['EOF', 'TIMEOUT'])]] if rng.random() < 0.4 else []
         one_case(case, acc)
         if acc.evaluations <= 3:
             acc.sample(case)
@@ -292,6 +311,36 @@ def one_case(case, acc):
                 pass
             # own flags honoured for the native type: independent search on the final text
             chk_native_flags(acc, case, nat, r1, text)
+
+    # lists that mix the forms: every entry given as a string stands for "compiled with the documented flags",
+    # whatever stands before or after it in the list; a pre-compiled entry keeps its own flags
+    if case.get('list'):
+        acc.count('mixed_form_lists')
+
+        def build(c, conv, variant):
+            out = []
+            for ent in case['list']:
+                src_i, fl_i, form_i = ent['src'], ent['flags'], ent['form']
+                if variant and fl_i is None and form_i == 'str':
+                    out.append(conv(src_i))
+                elif variant and fl_i is None and form_i == 'ascii' and enc is None:
+                    out.append(src_i)
+                elif variant and form_i == 'other':
+                    out.append(re.compile(other(src_i, enc) if enc else src_i, native_flags if fl_i is None else fl_i))
+                else:
+                    out.append(re.compile(conv(src_i), native_flags if fl_i is None else fl_i))
+            for pos, m in case.get('list_markers', []):
+                out.insert(min(pos, len(out)), EOF if m == 'EOF' else TIMEOUT)
+            return out
+        lref = run_form(case, lambda c, conv: c.expect(build(c, conv, False)))
+        l1 = run_form(case, lambda c, conv: c.expect(build(c, conv, True)))
+        l2 = run_form(case, lambda c, conv: c.expect_list(c.compile_pattern_list(build(c, conv, True))))
+        for nm, got in (('mixed-list', l1), ('mixed-list-compile_pattern_list', l2)):
+            acc.count('form_pairs_compared')
+            if lref.key() != got.key():
+                acc.violation('form-' + nm + '-differs', 'list %r markers %r ignorecase=%r mode=%s: all entries compiled %r; mixed forms %r' % (
+                    case['list'], case.get('list_markers'), ic, enc or 'bytes', lref, got), case)
+                break
 
     # expect_exact(literal) vs expect(re.escape(literal))
     lit = case['lit']
